@@ -70,8 +70,8 @@ CLAIMED = {
    note="Trusted: go/ssa, Go append/re-slice semantics; locking is C01/C02.",
    ref="DESIGN.md section 3 E7 (AG6, AG4), section 4 C05/C06"),
  "C13": dict(
-   technique="canonical-scan recognition (PT5), guard dominance (PT6), strictness/direction of update comparisons, finite order abstraction of comparison-only functions (OD2 decision tables over every order type), helper hygiene (GS1/GS2) on go/ssa",
-   text="Decides: IndexOf/FindIndex/Contains/Some/Every are complete forward scans and LastIndexOf/FindLastIndex complete backward scans whose match edge returns at once and whose default result is returned only through the loop exit; FindAll stores (index, element) of one iteration under the predicate; extremum functions seed with s[0] only under len > 0, scan forward, update on the strict comparison their name promises with the element just read and return the accumulator; ByKey variants read map values only under the comma-ok presence test; Sum/SumBy/Mean add each element exactly once in a complete scan; Clamp, InRange, Abs, Compare, Less, Equal are comparison-only and their decision tables over every order type of the arguments equal the defining inequalities (exhaustive, holds for all inputs); helpers use no mutable package-level state and start no goroutines. Nth, Range/RangeRight and numeric values are not decided.",
+   technique="canonical-scan recognition (PT5), guard dominance (PT6), strictness/direction of update comparisons, finite order abstraction of comparison-only functions (OD2 decision tables over every order type, dense orders included), piecewise-affine index table with a statically checked premise (BD2, Nth), helper hygiene (GS1/GS2) on go/ssa",
+   text="Decides: IndexOf/FindIndex/Contains/Some/Every are complete forward scans and LastIndexOf/FindLastIndex complete backward scans whose match edge returns at once and whose default result is returned only through the loop exit; FindAll stores (index, element) of one iteration under the predicate; extremum functions seed with s[0] only under len > 0, scan forward, update on the strict comparison their name promises with the element just read and return the accumulator; ByKey variants read map values only under the comma-ok presence test; Sum/SumBy/Mean add each element exactly once in a complete scan; Clamp, InRange, Abs, Compare, Less, Equal are comparison-only and their decision tables over every order type of the arguments equal the defining inequalities (exhaustive, holds for all inputs); helpers use no mutable package-level state and start no goroutines. Numeric values (overflow, rounding) are not decided.",
    note="Trusted: go/ssa; user callbacks are pure; OD2 first checks that the body is comparison-only (else undecided).",
    ref="DESIGN.md section 3 E4/E6, section 4 C13"),
  "C15": dict(
@@ -115,7 +115,7 @@ ADDENDA = {
  "C10": " Also: split conservation (entry count halved, upper half copied unconditionally), complete entry scans that end only through their own test, who-writes rules for entries and root.",
  "C11": " Also: Flatten/Union report an error only for an unsupported value or a failed recursion; reachability and dominance are decided through found-flags (jump threading).",
  "C12": " Also: the cells Shuffle swaps lie inside the copy (BD1); side paths around a scan through helpers are reported.",
- "C13": " Also (supersedes 'Range not decided'): everything Range decides before its first iteration - rejection, which loop, start, bound, amount moved - is tabulated over representatives of every order type of its arguments in [-3,3] against the statement, the loops append one value derived from the counter per iteration, RangeRight passes arguments and error through and reverses; the running extremum is seeded with s[0] (ByKey: with the first map's value, updated with the compared value, selector k == key); comparison-only helpers called from comparison-only functions are interpreted in turn. Strictness is required only under a key function.",
+ "C13": " Also (supersedes 'Range not decided'): everything Range decides before its first iteration - rejection, which loop, start, bound, amount moved - is tabulated over representatives of every order type of its arguments in [-3,3] against the statement, the loops append one value derived from the counter per iteration, RangeRight passes arguments and error through and reverses; the running extremum is seeded with s[0] (ByKey: with the first map's value, updated with the compared value, selector k == key); comparison-only helpers called from comparison-only functions are interpreted in turn. Strictness is required only under a key function. Nth (supersedes 'Nth not decided', rule BD2): premise decided on the SSA - Nth, Abs and Bound.Enclose are loop-free, combine integers only by + - and comparisons, and compare/index with forms a*len+b*nth+c of small coefficients - and under it the outcome (element index returned, error, or out-of-range index = panic) is tabulated by the checker's own evaluator over len 0..8 x nth -11..11, representatives of every cell of the arrangement, against s[nth] / s[len+nth] / error, never a panic; premise failure is undecided. The OD2 and Range tables run in half units because the functions are generic over floats (0 < x < 1 is represented).",
  "C14": " Also: FindKey returns the key of the entry on the edge where fn(v) held (per return alternative).",
  "C16": " Also: OW4 no helper re-slices an argument up to its capacity and writes or returns that part; GS1/GS2 no mutable package-level state (pools, scratch buffers), no goroutines.",
  "C17": " Also: the flight group is used through Do only (Forget/DoChan are reported); Set's liveness test (an expired, unswept entry must be replaceable).",
